@@ -106,7 +106,7 @@ def gen_inline(rng):
     u = rng.random()
     f2 = rng.choice(["#sum", "#sum", "#sum+", "#count", "#max", "#min"])
     if u < 0.45:
-        el = "L,B : load(B,L)"
+        el = "L,B : load(B,L)" + rng.choice(["", "", "", ", heavy(B)", ", not light(B)", ", B != b1"])  # further conditions
         if rng.random() < 0.3:
             el += rng.choice(["; 1,x : extra", "; W : bonus(W)", "; L2,B2 : cap(B2,L2)"])
         lines.append(f"report(X) :- X = {f2} {{ {el} }}{rng.choice(['', '', ', load(B2,L2), limit(M), L2 > M'])}.")
